@@ -177,6 +177,8 @@ partial def showFVal : FVal → String
   | .objs os => "M[" ++ ",".intercalate (os.map showFVal) ++ "]"
   | .classObj c => s!"C{c}"
   | .obj c fs ex =>
+    -- canonical: fields sorted by attribute name id
+    let fs := (fs.toArray.qsort (fun a b => a.1 < b.1)).toList
     s!"O{c}" ++ "{" ++ ";".intercalate (fs.map fun (k, v) => s!"{k}=" ++ showFVal v) ++ "}[" ++
       ",".intercalate (ex.map showAvpObj) ++ "]"
 
